@@ -139,15 +139,15 @@ def configs(tier):
                    stripes=12 if th else 12, cap=4000 if th else 500))
     # (2) attribute without initiator, non-NUMA target, read-only attributes, bad arguments
     cs.append(dict(name="noini", fam="D", init=[("A", 1)], reg=[], attrs=["A", "Capacity", "Locality", "#4242"], targets=["N0", "N1", "N2", "K1"],
-                   inis=["n", "c:0", "x", "c:-", "o:P2"], vals=[0, 1, 2] if th else [0, 1], flags=[0, 1],
+                   inis=["n", "c:0", "x", "z", "c:-", "o:P2"], vals=[0, 1, 2] if th else [0, 1], flags=[0, 1],
                    topo=(RESTRICTS["D"][:4] + OTHERS) if th else (RESTRICTS["D"][:3] + [("dupdrop",), ("xml", 2)]),
                    obs=["A", "Capacity", "Locality", "#4242"], maxreg=0, maxset=2, maxtopo=1, maxtouch=1, maxlen=4,
                    stripes=16 if th else 64, cap=3000 if th else 500))
     # (3) a custom and a predefined attribute side by side (XML export of predefined attributes with values)
     cs.append(dict(name="two", fam="B", init=[("A", 6)], reg=[], attrs=["A", "Bandwidth"], targets=["N4", "N1"],
-                   inis=["c:0,1", "c:2,3", "c:0", "o:P1", "n", "z"] if th else ["c:0,1", "c:2,3", "o:P1", "n"], vals=[0, 1], flags=[0],
+                   inis=["c:0,1", "c:2,3", "c:0", "o:P1", "n"] if th else ["c:0,1", "c:2,3", "o:P1", "n"], vals=[0, 1], flags=[0],
                    topo=(RESTRICTS["B"] + OTHERS) if th else (RESTRICTS["B"][:3] + [("dup",), ("xml", 0)]),
-                   obs=["A", "Bandwidth"], maxreg=0, maxset=3 if th else 2, maxtopo=1, maxtouch=1, maxlen=5 if th else 4,
+                   obs=["A", "Bandwidth"], maxreg=0, maxset=3 if th else 2, maxtopo=1, maxtouch=1, maxlen=4,
                    stripes=24 if th else 16, cap=4000 if th else 500))
     # (4) registration: every flag word 0..8 and 16, new and used names, interleaved with dup / XML
     cs.append(dict(name="reg", fam="B", init=[], reg=[(n, w) for n in ("A", "B", "Capacity", "Latency") for w in list(range(9)) + [16]],
@@ -355,7 +355,7 @@ def describe(ctx, exe, fams):
     return res
 
 
-TV_CFG = "SPECIFICATION Spec\nCONSTANT Advisory = %s\nPOSTCONDITION Accepted\nCHECK_DEADLOCK FALSE\n"
+TV_CFG = "SPECIFICATION Spec\nCONSTANTS\n  Advisory = %s\n  Diag = FALSE\nPOSTCONDITION Accepted\nCHECK_DEADLOCK FALSE\n"
 
 
 def run(ctx, replay=None):
@@ -369,11 +369,32 @@ def run(ctx, replay=None):
         ctx.record(exe, p, t)
         return ctx.validate("TraceMemAttrs", t, cfg=TV_CFG % ("TRUE" if advisory else "FALSE"), nshards=1)
 
+    def diagnose(text):
+        """which logged query breaks its relation: one more TLC pass over the recorded replay with Diag = TRUE"""
+        p = ctx.path("diag.beh")
+        open(p, "w").write(text)
+        ctx.record(exe, p, p + ".ndjson")
+        d = ctx.path("diag")
+        os.makedirs(d, exist_ok=True)
+        for f in os.listdir(vlib.SPEC):
+            if f.endswith(".tla"):
+                import shutil
+                shutil.copy(os.path.join(vlib.SPEC, f), d)
+        open(os.path.join(d, "TraceMemAttrs.cfg"), "w").write((TV_CFG % "FALSE").replace("Diag = FALSE", "Diag = TRUE"))
+        rc, out = vlib.run(["java", "-Xmx2g", vlib.JAVA_OPTS, "-cp", vlib.TLA_CP, "tlc2.TLC", "-noGenerateSpecTE", "-workers", "1",
+                            "-metadir", os.path.join(d, "meta"), "-config", "TraceMemAttrs.cfg", "TraceMemAttrs.tla"],
+                           cwd=d, timeout=600, env={"TRACE": p + ".ndjson"})
+        for line in out.split("\n"):
+            if line.startswith('"FAILED '):
+                vlib.log("  relation broken by:", line[8:1200])
+
     if replay:
         rej = replay_fn(open(replay).read())
         for r in rej:
             vlib.log("rejected event:", r["line"][:1500])
             print("VIOLATION property=C14 replay=%s" % replay)
+        if rej:
+            diagnose(open(replay).read())
         ctx.cleanup()
         return 1 if rej else 0
 
@@ -385,7 +406,7 @@ def run(ctx, replay=None):
     # (1) exhaustive BFS over the bounded configurations: behaviours = striped edges and states (seeded sample up to the cap)
     # (2) simulation: longer histories, two attributes, 64-bit values, every family
     jobs = []
-    for c in configs(ctx.tier):
+    for c in sorted(configs(ctx.tier), key=lambda c: -len(c["inis"]) ** c["maxset"] * len(c["attrs"])):     # largest first
         jobs.append(("bfs", c, ctx.seed % c["stripes"]))
     for c in sim_configs(ctx.tier):
         jobs.append(("sim", c, 0))
